@@ -247,6 +247,14 @@ theorem C05_read_terminates_sound (c : Cfg) (hg : c.g = true) (toks : List Token
   refine ⟨h.2 (by simp only [hrem]; omega), ?_, h.1.bad rfl⟩
   rw [h.1.tape]; simp [Zip.init, Zip.tape]
 
+/-- The loader's loop terminates too: whatever the bound `k` on the number of terms, `for p.More() { p.Term() }`
+    calls `Term` at most (number of tokens) + 1 times — every successful `Term` consumes at least its end
+    token. -/
+theorem C05_read_loop_bounded (c : Cfg) (hg : c.g = true) (toks : List Token) (fuel k : Nat) :
+    (readAll c fuel k ({ buf := Zip.init toks } : PS Zip)).1.length ≤ toks.length + 1 := by
+  have h := readAll_length c hg fuel k ({ buf := Zip.init toks } : PS Zip)
+  simpa [Zip.init, Zip.rem] using h
+
 /-! ### the pinned reader violates all three -/
 
 /-- D1.  On the pinned reader the token list `[` `-` (the text `X = [-` ends like this) never returns:
